@@ -247,8 +247,8 @@ def scenarios(seed, tier):
         out.append(json.dumps({"do": "synth", "text": list(text.encode()), "expect": "ok", "rec": r}, separators=(",", ":")))
     for text in damaged_cases(rnd):
         out.append(json.dumps({"do": "synth", "text": list(text.encode()), "expect": "err", "rec": EMPTY_REC}, separators=(",", ":")))
-    for b in arbitrary_cases(rnd, 3000 if tier == "quick" else 100000):
+    for b in arbitrary_cases(rnd, 3000 if tier == "quick" else 250000):
         out.append(json.dumps({"do": "synth", "text": b, "expect": "any", "rec": EMPTY_REC}, separators=(",", ":")))
-    for b in mixed_cases(rnd, 3000 if tier == "quick" else 60000):
+    for b in mixed_cases(rnd, 3000 if tier == "quick" else 250000):
         out.append(json.dumps({"do": "synth", "text": b, "expect": "any", "rec": EMPTY_REC}, separators=(",", ":")))
     return out
